@@ -239,7 +239,7 @@ var wiredCallees = []string{"NewProxy", "NewProxyItem", "NewRawMessage", "NewTCP
 type wireFact struct {
 	caller, callee string
 	inLoop         bool
-	args           []string // "param=expr"
+	args           [][2]string // (parameter name, argument expression)
 }
 
 func paramNames(fd *ast.FuncDecl) []string {
@@ -288,7 +288,7 @@ func wiring(p *pkgInfo) []wireFact {
 						}
 						wf := wireFact{caller: name, callee: id.Name, inLoop: inLoop}
 						for i, a := range x.Args {
-							wf.args = append(wf.args, pn[i]+"="+exprStr(a))
+							wf.args = append(wf.args, [2]string{pn[i], exprStr(a)})
 						}
 						out = append(out, wf)
 					}
@@ -377,14 +377,18 @@ func main() {
 
 	// Wiring.lean
 	sb.Reset()
-	sb.WriteString("-- GENERATED by /verif/extract from the Go sources; do not edit.\nnamespace Generated\n\nstructure Wire where\n  caller : String\n  callee : String\n  inLoop : Bool\n  args : List String\n  deriving Repr, DecidableEq\n\n/-- F4: every call of a constructor of interest: parameter name = argument expression. -/\ndef wiring : List Wire := [\n")
+	sb.WriteString("-- GENERATED by /verif/extract from the Go sources; do not edit.\nnamespace Generated\n\nstructure Wire where\n  caller : String\n  callee : String\n  inLoop : Bool\n  args : List (String × String)\n  deriving Repr, DecidableEq\n\n/-- F4: every call of a constructor of interest: parameter name = argument expression. -/\ndef wiring : List Wire := [\n")
 	ws := wiring(p)
 	for i, w := range ws {
 		sep := ","
 		if i == len(ws)-1 {
 			sep = ""
 		}
-		sb.WriteString(fmt.Sprintf("  { caller := %s, callee := %s, inLoop := %v, args := %s }%s\n", leanStr(w.caller), leanStr(w.callee), w.inLoop, leanStrList(w.args), sep))
+		var ps []string
+		for _, a := range w.args {
+			ps = append(ps, "("+leanStr(a[0])+", "+leanStr(a[1])+")")
+		}
+		sb.WriteString(fmt.Sprintf("  { caller := %s, callee := %s, inLoop := %v, args := [%s] }%s\n", leanStr(w.caller), leanStr(w.callee), w.inLoop, strings.Join(ps, ", "), sep))
 	}
 	sb.WriteString("]\n\n/-- sibling of F5: every ==/!= comparison with a `.name` operand (header names must go through isSameHeader). -/\ndef nameComparisons : List String := " + leanStrList(nameComparisons(p)) + "\n\nend Generated\n")
 	writeIfChanged(filepath.Join(outDir, "Wiring.lean"), sb.String())
